@@ -255,6 +255,9 @@ func inductionCoversAll(phi *ssa.Phi, index ssa.Value, isLen func(ssa.Value) boo
 }
 
 func runC06(c *Ctx) {
+	c.rule("C06-R8", "PAIR: every Lock/RLock in pkg/server (auth failure trackers) is released on every path to a return")
+	c.Sites["C06-R8#acquire-sites"] = lockReleaseAudit(c, "C06-R8", []string{serverPkg})
+	c.floor("C06-R8", 6)
 	// ---- R1 wiring
 	c.rule("C06-R1", "TBL/def-use: every server.Route built in cmd/glyph from an *ast.Route sets Middlewares to routeMiddlewares(r) for the same r that produced its Handler; every ast.Route literal in the module keeps .Auth (parsed by parseAuthConfig or copied from the source route)")
 	n := 0
